@@ -1,16 +1,25 @@
+"""Replay of the C18 known finding (warnings filters): 8 threads list the issues of one tree at the same time; afterwards the
+process-wide warnings.filters list must be what it was.  Exit 1 when a blanket filter stayed installed.   /venv/bin/python harness/c18_warnings_race.py"""
 import sys, threading, warnings
 sys.path.insert(0, '/repo')
 import parso
-g = parso.load_grammar()
-m = g.parse(''.join('x%d = "a%d"\n' % (i, i) for i in range(300)))
-before = list(warnings.filters)
-sys.setswitchinterval(1e-6)
-def work():
-    for _ in range(10):
-        g.iter_errors(m)
-for rnd in range(12):
-    ts = [threading.Thread(target=work) for _ in range(8)]
-    [t.start() for t in ts]; [t.join() for t in ts]
-    if list(warnings.filters) != before:
-        print('round', rnd, 'warnings.filters changed for good: first entry now', warnings.filters[0]); sys.exit(1)
-print('filters unchanged after 12 rounds'); sys.exit(0)
+
+
+def main():
+    g = parso.load_grammar()
+    m = g.parse(''.join('x%d = "a%d"\n' % (i, i) for i in range(300)))
+    before = list(warnings.filters)
+    sys.setswitchinterval(1e-6)
+    def work():
+        for _ in range(10):
+            g.iter_errors(m)
+    for rnd in range(12):
+        ts = [threading.Thread(target=work) for _ in range(8)]
+        [t.start() for t in ts]; [t.join() for t in ts]
+        if list(warnings.filters) != before:
+            print('round', rnd, 'warnings.filters changed for good: first entry now', warnings.filters[0]); sys.exit(1)
+    print('filters unchanged after 12 rounds'); sys.exit(0)
+
+
+if __name__ == '__main__':
+    main()
